@@ -17,14 +17,14 @@ Definition Qvec := list Q.
 Definition Qmat := list (list Q).
 
 (* ---------------- small exact linear algebra on lists of Q ---------------- *)
-(* dot product; zero entries of the first vector are skipped (banded / sparse rows) and the accumulator is kept in
-   lowest terms, so that 77 x 77 products of binary floats stay cheap under vm_compute *)
+(* dot product; zero entries of the first vector are skipped (banded / sparse rows); reduced to lowest terms once, at
+   the end (reducing at every step costs a gcd per term and is several times slower on 77 x 77 binary floats) *)
 Fixpoint qdot_acc (acc : Q) (x y : Qvec) : Q :=
   match x, y with
-  | a :: x', b :: y' => if (Qnum a =? 0)%Z then qdot_acc acc x' y' else qdot_acc (Qred (acc + a * b)) x' y'
+  | a :: x', b :: y' => if (Qnum a =? 0)%Z then qdot_acc acc x' y' else qdot_acc (acc + a * b) x' y'
   | _, _ => acc
   end.
-Definition qdot (x y : Qvec) : Q := qdot_acc 0 x y.
+Definition qdot (x y : Qvec) : Q := Qred (qdot_acc 0 x y).
 Definition qmv (A : Qmat) (x : Qvec) : Qvec := map (fun r => qdot r x) A.
 Definition qcol (A : Qmat) (j : nat) : Qvec := map (fun r => nth j r 0) A.
 Definition ncols (A : Qmat) : nat := match A with [] => O | r :: _ => length r end.
